@@ -8,6 +8,17 @@ class CutPath(Exception):
     """The path ends at a cut point (its obligations have been recorded)."""
 
 
+def _check_binds(ann, fr, node):
+    """DESIGN 2.7(5): an annotation names locals of the loop it describes.  If the code was edited so
+    that they no longer exist (renamed local, different loop), the function is *undecided*, not refuted."""
+    import ast as _ast
+    missing = [n for n in getattr(ann, 'binds', ()) if n not in fr.locals]
+    used = {x.id for x in _ast.walk(node) if isinstance(x, _ast.Name)}
+    unused = [n for n in getattr(ann, 'binds', ()) if n not in used and not n.startswith('__')]
+    if missing or unused:
+        raise OutOfSubset('loop annotation does not bind to this loop any more (locals %s)' % ', '.join(missing + unused))
+
+
 def _safe_inv(fn, *a):
     """Evaluate an invariant; a failure of the annotation itself makes the obligation undecided, never a crash."""
     from .sym import Infeasible
@@ -48,6 +59,7 @@ class CutFor:
     def run_for(self, ip, node, fr, iterable):
         from .interp import _Continue, _Break
         st = ip.st
+        _check_binds(self, fr, node)
         if isinstance(iterable, dict):
             iterable = list(iterable)
         if not isinstance(iterable, (list, tuple)):
@@ -98,6 +110,7 @@ class CutWhile:
         from .interp import _Continue, _Break
         from .sym import I
         st = ip.st
+        _check_binds(self, fr, node)
         tag = 'loop@%d' % node.lineno
         for n in range(self.unroll):
             if not st.truth(ip.eval(node.test, fr), '%s#test-%d' % (tag, n)):
@@ -156,6 +169,7 @@ class CutSeqFor:
         from .sym import ObjS
         from spec import wire
         st = ip.st
+        _check_binds(self, fr, node)
         seq = self.seq_of(ip, iterable)
         if seq is None:
             raise OutOfSubset('loop annotation does not apply to this iterable')
